@@ -1,4 +1,114 @@
 import Reduino.Fw.LcdAnim
+import Reduino.Lemmas.C18
+/-
+  C18 — LCD animations never block, stay inside their row, finish unless looping.
+  `Lcd.Fw.start/step/tick` are the emitted templates, `Lcd.Host.animate/step/tick` the host class, both over the cell
+  matrix.  Quantified over all four styles, all texts, all widths, loop on/off, all speeds and all clock values.
+  "Never blocks / no delay": `tick` returns only a cell matrix and print records — the model of the emitted template has
+  no delay event to return (and the trace monitor checks the real firmware issues none).
+-/
 namespace Reduino.Props.C18
-theorem stub : True := trivial
+open Reduino Reduino.Lcd
+
+def Shaped (g : Grid) (cols rows : Nat) : Prop := g.length = rows ∧ ∀ r ∈ g, r.length = cols
+def InRow (cols : Nat) (p : Print) : Prop := 0 ≤ p.col ∧ p.col + Int.ofNat p.len ≤ Int.ofNat cols
+
+/-! ### frame geometry -/
+
+/-- each firmware frame occupies only the animation's row and stays within the display width -/
+theorem fw_frame_geometry (a : Anim) (g : Grid) (cols rows now : Nat) (hs : Shaped g cols rows) :
+    let r := Fw.tick a g cols now
+    Shaped r.2.1.grid cols rows ∧
+    (∀ p ∈ r.2.1.prints, InRow cols p ∧ p.row = Int.ofNat a.row) ∧
+    (∀ i, i ≠ a.row → r.2.1.grid.getD i [] = g.getD i []) := by
+  sorry
+
+theorem fw_start_geometry (style : Style) (g : Grid) (cols rows row speed : Nat) (text : List Char) (loop : Bool)
+    (hs : Shaped g cols rows) :
+    let r := Fw.start style g cols row text speed loop
+    Shaped r.2.grid cols rows ∧ (∀ p ∈ r.2.prints, InRow cols p ∧ p.row = Int.ofNat row) ∧
+    (∀ i, i ≠ row → r.2.grid.getD i [] = g.getD i []) := by
+  sorry
+
+theorem host_frame_geometry (a : Anim) (g : Grid) (cols rows now : Nat) (hs : Shaped g cols rows) :
+    let r := Host.tick a g cols now
+    Shaped r.2.1 cols rows ∧ (∀ i, i ≠ a.row → r.2.1.getD i [] = g.getD i []) := by
+  sorry
+
+/-! ### rate limit: once the clock is running a step happens no more often than every speed_ms -/
+
+theorem fw_rate_limit (a : Anim) (g : Grid) (cols now : Nat) :
+    ((Fw.tick a g cols now).2.2 = true → (Fw.tick a g cols now).1.lastStep = now ∧ a.active = true) ∧
+    ((Fw.tick a g cols now).2.2 = false → (Fw.tick a g cols now).1 = a ∧ (Fw.tick a g cols now).2.1.grid = g) ∧
+    (0 < a.speed → 0 < a.lastStep → now - a.lastStep < a.speed → (Fw.tick a g cols now).2.2 = false) := by
+  sorry
+
+/-- consecutive steps at clock values `t` then `t'` (with `0 < t ≤ t'`) are at least `speed` apart -/
+theorem fw_steps_spaced (a : Anim) (g g' : Grid) (cols t t' : Nat) (ht : 0 < t) (htt : t ≤ t')
+    (h1 : (Fw.tick a g cols t).2.2 = true) (h2 : (Fw.tick (Fw.tick a g cols t).1 g' cols t').2.2 = true) :
+    a.speed ≤ t' - t := by
+  sorry
+
+theorem host_rate_limit (a : Anim) (g : Grid) (cols now : Nat) :
+    ((Host.tick a g cols now).2.2 = true → (Host.tick a g cols now).1.lastStep = now ∧ a.active = true) ∧
+    ((Host.tick a g cols now).2.2 = false → (Host.tick a g cols now).1 = a ∧ (Host.tick a g cols now).2.1 = g) ∧
+    (0 < a.speed → 0 < a.lastStep → now - a.lastStep < a.speed → (Host.tick a g cols now).2.2 = false) := by
+  sorry
+
+/-! ### looping animations never end; non-looping ones end after a linearly bounded number of steps -/
+
+theorem fw_loop_forever (a : Anim) (g : Grid) (cols : Nat) (hl : a.loop = true) (ha : a.active = true) :
+    (Fw.step a g cols).1.active = true ∧ (Fw.step a g cols).1.loop = true := by
+  sorry
+
+theorem host_loop_forever (a : Anim) (g : Grid) (cols : Nat) (hl : a.loop = true) (ha : a.active = true) :
+    (Host.step a g cols).1.active = true ∧ (Host.step a g cols).1.loop = true := by
+  sorry
+
+/-- `n` forced steps (ticks that pass the rate limiter), stopping as soon as the animation is inactive -/
+def fwSteps (cols : Nat) : Nat → Anim × Grid → Anim × Grid
+  | 0, s => s
+  | n + 1, (a, g) => if a.active then fwSteps cols n ((Fw.step a g cols).1, (Fw.step a g cols).2.grid) else (a, g)
+
+def hostSteps (cols : Nat) : Nat → Anim × Grid → Anim × Grid
+  | 0, s => s
+  | n + 1, (a, g) => if a.active then hostSteps cols n (Host.step a g cols) else (a, g)
+
+/-- step bound, linear in text length and width -/
+def fwBound (style : Style) (len cols : Nat) : Nat :=
+  match style with
+  | .scroll => max len cols + cols
+  | .blink => 1
+  | .typewriter => max (len - 1) 1
+  | .bounce => if 0 < len ∧ len < cols then 2 * (cols - len) else 1
+
+def hostBound (style : Style) (len cols : Nat) : Nat :=
+  match style with
+  | .scroll => len + cols
+  | _ => fwBound style len cols
+
+theorem fw_terminates (style : Style) (g : Grid) (cols row speed : Nat) (text : List Char) (hc : 0 < cols) :
+    let s0 := Fw.start style g cols row text speed false
+    (fwSteps cols (fwBound style text.length cols) (s0.1, s0.2.grid)).1.active = false := by
+  sorry
+
+theorem host_terminates (style : Style) (g : Grid) (cols row speed : Nat) (text : List Char) (hc : 0 < cols) :
+    let s0 := Host.animate style g cols row text speed false
+    (hostSteps cols (hostBound style text.length cols) s0).1.active = false := by
+  sorry
+
+/-- the bound is linear: at most `2·(len + cols) + 1` -/
+theorem bound_linear (style : Style) (len cols : Nat) :
+    fwBound style len cols ≤ 2 * (len + cols) + 1 ∧ hostBound style len cols ≤ 2 * (len + cols) + 1 := by
+  sorry
+
+/-- an inactive animation is never touched again -/
+theorem inactive_stays (a : Anim) (g : Grid) (cols now : Nat) (h : a.active = false) :
+    Fw.tick a g cols now = (a, { grid := g }, false) ∧ Host.tick a g cols now = (a, g, false) := by
+  sorry
+
+example : (fwSteps 8 (fwBound .bounce 3 8) ((Fw.start .bounce (blank 8 2) 8 0 ['a', 'b', 'c'] 0 false).1,
+    (Fw.start .bounce (blank 8 2) 8 0 ['a', 'b', 'c'] 0 false).2.grid)).1.active = false := by
+  sorry
+
 end Reduino.Props.C18
